@@ -297,6 +297,10 @@ func (msg *MessageAuth) FromChunks(chunks []*MessageChunk) error {
 	var foundDelimiter bool
 	for i, b := range src {
 		if b == MessageChunkBytesDelimiter {
+			if i == len(src)-1 {
+				// the delimiter is the last byte: there is neither a public key nor a parity byte
+				return ErrIncorrectSourceBytes
+			}
 			msg.Username = string(src[:i])
 			msg.PublicKeyBytes = src[i+1 : len(src)-1]
 			msg.PublicKeyParity = src[len(src)-1]
